@@ -2,7 +2,7 @@
 Timed ring with application traffic, station level: properties of the application scripts that survive
 polls; single-poll results for arbitrary application lists.  Helper lemmas.
 -/
-import ProfiVerif.Lemmas.TimedRingNSys
+import ProfiVerif.Lemmas.TimedRingListen
 
 namespace PV
 open StationGap TokenRing
@@ -68,6 +68,10 @@ theorem appsTransmit_ansOk (P : Header → Bytes → Prop) (now : Int) (hp : Boo
           · simp only [Prod.mk.injEq, Res.ok.injEq] at h; rw [← h.1]; exact h2
           · exact ih _ c1 b h h2
         · cases h
+
+/-- What every application telegram must satisfy: valid addresses, and not an FDL status request (those are
+the FDL layer's own business). -/
+def AppP (h : Header) (_pdu : Bytes) : Prop := h.da < 128 ∧ h.sa < 128 ∧ ∀ fcb, h.fc ≠ .request fcb .fdlStatus
 
 /-! ## What asking the applications does -/
 
